@@ -375,7 +375,12 @@ type sigKey struct {
 var sigKeys []sigKey
 
 func mkCert(pub interface{}, priv crypto.Signer) string {
-	tmpl := &x509.Certificate{SerialNumber: big.NewInt(1), Subject: pkix.Name{CommonName: "verif"}, NotBefore: time.Unix(0, 0), NotAfter: time.Unix(4102444800, 0)}
+	return mkCertValid(pub, priv, time.Unix(0, 0), time.Unix(4102444800, 0))
+}
+
+// a certificate with an explicit validity window (the registry's verdict must not depend on it)
+func mkCertValid(pub interface{}, priv crypto.Signer, notBefore, notAfter time.Time) string {
+	tmpl := &x509.Certificate{SerialNumber: big.NewInt(1), Subject: pkix.Name{CommonName: "verif"}, NotBefore: notBefore, NotAfter: notAfter}
 	der, err := x509.CreateCertificate(rand.Reader, tmpl, tmpl, pub, priv)
 	if err != nil {
 		panic(err)
@@ -391,6 +396,11 @@ func sigKeyPool() []sigKey {
 		}
 		rk, _ := rsa.GenerateKey(rand.Reader, 2048)
 		sigKeys = append(sigKeys, sigKey{"sha256WithRsaEncryption", mkCert(&rk.PublicKey, rk), rk})
+		// directed: certificates whose validity window ended before / starts after every block time used
+		ek2, _ := ecdsa.GenerateKey(elliptic.P256(), rand.Reader)
+		sigKeys = append(sigKeys, sigKey{"ecdsaWithSha256", mkCertValid(&ek2.PublicKey, ek2, time.Unix(1500000000, 0), time.Unix(1600000000, 0)), ek2})
+		ek3, _ := ecdsa.GenerateKey(elliptic.P256(), rand.Reader)
+		sigKeys = append(sigKeys, sigKey{"ecdsaWithSha256", mkCertValid(&ek3.PublicKey, ek3, time.Unix(4000000000, 0), time.Unix(4102444800, 0)), ek3})
 	}
 	return sigKeys
 }
